@@ -223,7 +223,16 @@ func c07Gen(rng *rand.Rand, tier string, w *bufio.Writer) {
 	fmt.Fprintln(w, "case 14\nset k1 i64 97 1000000000 5000000000 0\nset k2 i64 98 2000000000 4000000000 3000000000\nset k3 str 1 3000000000 3000000000 0\nset k4 bytes 2 3000000000 0 1000000000\nset k5 i64 99 0 2000000000 0\nq created asc 0 0 - - u\nq key desc 0 0 - - u\nshiftmatch key desc 2 - -\nq key asc 0 0 - - u\nq created desc 0 0 - - u\nshiftmatch created asc 0 2000000000 3000000001\nq created asc 0 0 - - u\nq updated asc 0 0 - - u\nshiftmatch updated desc 0 - -\nq key asc 0 0 - - u")
 	// 15: window bounds outside the years 1677…2262 (valid timestamps, not representable as int64 nanoseconds)
 	fmt.Fprintln(w, "case 15\nset k1 i64 97 3000000000 3000000000 3000000000\nset k2 i64 98 5000000000 5000000000 0\nset k3 i64 99 7000000000 0 7000000000\nq created asc 0 0 - 253402300799000000000 u\nq created desc 0 0 -62135596800000000000 - s\nq created asc 0 0 4000000000 9223372036854775808 u\nq updated desc 0 0 -9223372036854775809 5000000000 u\nq created asc 0 0 253402300799000000000 - u\nq expire asc 0 0 - -62135596800000000000 u\nq expire desc 0 2 - 7258118400000000000 s\nq key asc 0 0 - 253402300799000000000 u\nshiftmatch created asc 0 4000000000 253402300799000000000\nq created asc 0 0 - - u")
-	for c := 16; c < cases; c++ {
+	// 16: a shift loses the claim on a record between its selection pass and its deletes (forced schedule on
+	// hook shift.selected): the record must be back in the index it was taken out of
+	fmt.Fprintln(w, "case 16\nset k0 i64 97 0 0 0\nset k1 bytes 1 1000000000 0 0\nset k2 bytes 2 2000000000 0 0\nset k3 bytes 3 0 0 0\nq key asc 0 0 - - u\nsheld key asc 0 1\nset k1 bytes 0 0 0 0\nset k4 bytes 5 0 0 0\nsrelease\nq key asc 0 0 - - u\nq key desc 0 0 - - u\nq created asc 0 0 - - u\nsheld key desc 1 0\nset k1 bytes -1 0 0 0\nsrelease\nq key desc 0 0 - - m")
+	// 17: more records than any plausible cap on a page: a full read returns all of them
+	fmt.Fprintln(w, "case 17")
+	for i := 0; i < 1100; i++ {
+		fmt.Fprintf(w, "set n%04d i64 %d %d 0 0\n", i, 96+i%9, int64(1+i%7)*1000000000)
+	}
+	fmt.Fprintln(w, "q key asc 0 0 - - u\nq key desc 1050 0 - - s\nq created asc 0 0 - - m\nq key asc 0 1090 - - u")
+	for c := 18; c < cases; c++ {
 		persistent := c%3 == 0
 		if persistent {
 			fmt.Fprintf(w, "case %dp\n", c)
@@ -324,6 +333,24 @@ func c07Gen(rng *rand.Rand, tier string, w *bufio.Writer) {
 				fmt.Fprintf(w, "inc %s %d %d\n", k, d, c07TS(rng, 60))
 			case r < 62 && persistent:
 				fmt.Fprintln(w, "reload")
+			case r >= 78 && r < 82 && bodies && len(live) > 0:
+				// a key-ordered shift for n >= V, held after its selection pass; one or two saves meanwhile
+				fmt.Fprintf(w, "sheld key %s %d %d\n", []string{"asc", "desc"}[rng.Intn(2)], rng.Intn(3), rng.Intn(5)-2)
+				for j := 0; j < 1+rng.Intn(2); j++ {
+					if k, okk := pick(); okk {
+						live[k] = true
+						delete(incSum, k)
+						fmt.Fprintf(w, "set %s bytes %d 0 0 0\n", k, c07Rank(rng, "bytes"))
+					}
+				}
+				fmt.Fprintln(w, "srelease")
+				for k := range live {
+					if persistent {
+						retired[k] = true
+					}
+					delete(live, k)
+					delete(incSum, k)
+				}
 			case r >= 66 && r < 78 && (bodies || c%5 == 0):
 				// the claim paths: patch one key / patch every expired record / shift by index
 				e := []string{"-", "-", "clear", strconv.FormatInt(c07TS(rng, 0), 10)}[rng.Intn(4)]
@@ -445,6 +472,20 @@ func c07Run(in *bufio.Scanner, w *bufio.Writer) {
 		&settings.FileSystemSettings{WriteIntervalSec: 1, MaxFileSizeByte: 8192})
 	ctx := context.Background()
 	swampName := ""
+	// a shift held between its selection pass and its deletes (op sheld), until op srelease
+	var heldRelease chan struct{}
+	var heldDone chan string
+	release := func() string {
+		if heldRelease == nil {
+			return "ok"
+		}
+		close(heldRelease)
+		out := <-heldDone
+		heldRelease, heldDone = nil, nil
+		verifhook.SetHandler(nil)
+		return out
+	}
+	defer release()
 	for in.Scan() {
 		line := in.Text()
 		f := strings.Split(line, " ")
@@ -455,7 +496,58 @@ func c07Run(in *bufio.Scanner, w *bufio.Writer) {
 				}
 			}()
 			switch {
+			case f[0] == "srelease" && len(f) == 1:
+				return release()
+			case f[0] == "sheld" && len(f) == 5:
+				// ShiftMatchingTreasures(IDX, ORD, HowMany N, filter: body field n >= V), held at hook shift.selected
+				it, ok := c07IndexType(f[1])
+				n, e1 := strconv.ParseInt(f[3], 10, 32)
+				v, e2 := strconv.ParseInt(f[4], 10, 64)
+				if !ok || e1 != nil || e2 != nil || heldRelease != nil || (f[2] != "asc" && f[2] != "desc") {
+					return "bad-op"
+				}
+				ord := hydrapb.OrderType_ASC
+				if f[2] == "desc" {
+					ord = hydrapb.OrderType_DESC
+				}
+				path := "n"
+				flt := &hydrapb.FilterGroup{Logic: hydrapb.FilterLogic_AND, Filters: []*hydrapb.TreasureFilter{{
+					Operator: hydrapb.Relational_GREATER_THAN_OR_EQUAL, BytesFieldPath: &path,
+					CompareValue: &hydrapb.TreasureFilter_Int64Val{Int64Val: v}}}}
+				var armed int32 = 1
+				reached := make(chan struct{}, 1)
+				rel := make(chan struct{})
+				verifhook.SetHandler(func(name string, args ...any) {
+					if name == "shift.selected" && atomic.CompareAndSwapInt32(&armed, 1, 0) {
+						reached <- struct{}{}
+						<-rel
+					}
+				})
+				done := make(chan string, 1)
+				go func() {
+					resp, err := rig.GW.ShiftMatchingTreasures(ctx, &hydrapb.ShiftMatchingTreasuresRequest{IslandID: 1, SwampName: swampName,
+						IndexType: it, OrderType: ord, HowMany: int32(n), Filters: flt})
+					if err != nil || resp == nil {
+						done <- "err"
+						return
+					}
+					var keys []string
+					for _, t := range resp.GetTreasures() {
+						keys = append(keys, t.GetKey())
+					}
+					done <- "r " + strings.Join(keys, ",")
+				}()
+				select {
+				case <-reached:
+					heldRelease, heldDone = rel, done
+					return "held"
+				case <-done:
+					atomic.StoreInt32(&armed, 0)
+					verifhook.SetHandler(nil)
+					return "done"
+				}
 			case f[0] == "case" && len(f) == 2:
+				release()
 				if strings.HasSuffix(f[1], "p") { // a swamp on disk, so that it can be closed and loaded again
 					swampName = name.New().Sanctuary("c07p").Realm("idx").Swamp("case" + f[1]).Get()
 				} else {
